@@ -12,7 +12,7 @@ import numpy as np
 from harness import common as C
 
 HEADER = """From Coq Require Import List ZArith QArith Bool. Import ListNotations.
-From TLV Require Import Base.Tensor Model.Metrics Corr.C20."""
+From TLV Require Import Base.Tensor Model.Metrics Model.MetricsSrc Corr.C20."""
 
 EPS64 = float(np.finfo(np.float64).eps)
 METHODS = ["stacked", "max_score", "min_score", "avg_score"]
@@ -345,18 +345,22 @@ def gen_congruence(tier, rng):
         if all(np.all(np.abs(b).sum(axis=0) > 0) for b in B):
             calls.append(dict(As=A, Bs=B, absv=True, stream="perturbed"))
     # (e) malformed requests: both sides must reject
-    for k in range(12 if tier == "quick" else 40):
+    for k in range(18 if tier == "quick" else 48):
         r = rng.randint(1, 4); hs = [rng.randint(1, 4) for _ in range(2)]
         A = factor_set(rng, r, hs); B = factor_set(rng, r, hs)
-        kind = ["lengths", "columns", "rows", "zero_column"][k % 4]
+        kind = ["lengths", "columns", "rows", "zero_column", "empty", "columns_first"][k % 6]
         if kind == "lengths":
             B = B[:1]
+        elif kind == "empty":              # two empty lists: nothing to compare, linear_sum_assignment is handed the scalar 1
+            A, B = [], []
+        elif kind == "columns_first":      # the FIRST matrix is the odd one (the model compares with the first matrix's rank)
+            A[0] = dyadic_matrix(rng, hs[0], r + 1)
         elif kind == "columns":
             B[1] = dyadic_matrix(rng, hs[1], r + 1)
         elif kind == "rows":
             B[0] = dyadic_matrix(rng, hs[0] + 1, r)
         else:
-            (A if (k // 4) % 2 == 0 else B)[rng.randrange(2)][:, rng.randrange(r)] = 0.0
+            (A if (k // 6) % 2 == 0 else B)[rng.randrange(2)][:, rng.randrange(r)] = 0.0
         calls.append(dict(As=A, Bs=B, absv=True, malformed=kind, stream="malformed"))
     return calls
 
@@ -631,24 +635,35 @@ def gen_corridx(tier, rng):
                 A.append(a); B.append(b)
             if meth != "stacked" or nm == 1:
                 calls.append(dict(As=A, Bs=B, method=meth, tol=0.5, exact_boundary=0.5, stream="boundary"))
-    for k in range(12 if tier == "quick" else 40):
+    for k in range(24 if tier == "quick" else 64):
         r = rng.randint(1, 3); hs = [rng.randint(1, 3) for _ in range(2)]
         A = factor_set(rng, r, hs); B = factor_set(rng, r, hs)
-        kind = ["method", "ranks", "shapes", "zero_column"][k % 4]
+        kind = ["method", "ranks", "shapes", "zero_column", "empty", "rank_between", "heights_swapped", "ranks_second"][k % 8]
         meth = rng.choice(METHODS)
         if kind == "method":
             meth = "bogus"
+        elif kind == "empty":              # an empty factor list has no rank
+            A, B = ([], B) if (k // 8) % 2 == 0 else (A, [])
+        elif kind == "rank_between":       # each side of uniform rank, but the two ranks differ
+            B = [dyadic_matrix(rng, h, r + 1) for h in hs]
+        elif kind == "ranks_second":       # mixed rank inside factors_2
+            B[0] = dyadic_matrix(rng, hs[0], r + 1)
+        elif kind == "heights_swapped":    # same total height: accepted by "stacked", rejected by the per-mode methods
+            hs = [2, 3]; A = factor_set(rng, r, hs); B = factor_set(rng, r, hs[::-1])
         elif kind == "ranks":
             A[1] = dyadic_matrix(rng, hs[1], r + 1)
         elif kind == "shapes":
             B = [dyadic_matrix(rng, h + 1, r) for h in hs]
         else:
-            Z = A if (k // 4) % 2 == 0 else B
+            Z = A if (k // 8) % 2 == 0 else B
             Z[rng.randrange(2)][:, rng.randrange(r)] = 0.0
             if meth == "stacked":
                 for b in Z:
                     b[:, 0] = 0.0
-        calls.append(dict(As=A, Bs=B, method=meth, malformed=kind, stream="malformed"))
+        if kind == "heights_swapped" and meth == "stacked":
+            calls.append(dict(As=A, Bs=B, method=meth, tol=None, stream="heights_swapped_stacked"))     # a VALID request
+        else:
+            calls.append(dict(As=A, Bs=B, method=meth, malformed=kind, stream="malformed"))
     return calls
 
 
@@ -778,6 +793,8 @@ def pred_reg(call, out):
     st, v = out
     name, ax = call["fn"], call["axis"]
     yt, yp = frac_arr(call["yt"]), frac_arr(call["yp"])
+    if isinstance(ax, tuple):
+        return pred_reg_tuple(call, out, yt, yp)
     if ax is not None and not (-yt.ndim <= ax < yt.ndim):
         return [] if st == "reject" else [("C20_rejects_malformed", f"{name}: axis {ax} out of range was not rejected")]
     if st != "ok":
@@ -830,6 +847,52 @@ def pred_reg(call, out):
     return fails
 
 
+def tuple_axes_norm(ax, nd):
+    """normalised axes of a legal tuple, else None (an entry out of range, or an axis named twice)"""
+    if any(not (-nd <= a < nd) for a in ax):
+        return None
+    n = [a % nd for a in ax]
+    return n if len(set(n)) == len(n) else None
+
+
+def pred_reg_tuple(call, out, yt, yp):
+    st, v = out
+    name, ax = call["fn"], call["axis"]
+    if name not in ("MSE", "RMSE", "reflective_correlation_coefficient"):
+        # covariance / variance / standard_deviation / correlation build the keepdims shape with `shape[axis] = 1`
+        return [] if st == "reject" else [("C20_rejects_malformed", f"{name}: a tuple axis {ax} cannot index the keepdims shape, yet the call returned")]
+    axs = tuple_axes_norm(ax, yt.ndim)
+    if axs is None:
+        return [] if st == "reject" else [("C20_rejects_malformed", f"{name}: illegal tuple axis {ax} was not rejected")]
+    if st != "ok":
+        return [(f"C20_{name}_defined", f"valid tuple axis {ax} raised: {v}")]
+    v = np.asarray(v, dtype=np.float64)
+    if not finite(v):
+        return []
+    cnt = 1
+    for a in axs:
+        cnt *= yt.shape[a]
+    red = lambda a: np.asarray(a.sum(axis=tuple(axs)) if axs else a, dtype=object)
+    fails = []
+    if name in ("MSE", "RMSE"):
+        e = np.asarray(red((yt - yp) ** 2) / Fraction(cnt), dtype=object)
+        if e.shape != v.shape:
+            return [(f"C20_{name}_def", f"{name} axis={ax}: shape {v.shape}, definition gives {e.shape}")]
+        for idx in np.ndindex(*e.shape) if e.shape else [()]:
+            g = float(v[idx]); g2 = g * g if name == "RMSE" else g
+            if abs(g2 - float(e[idx])) > 1e-9 * (1 + abs(float(e[idx]))) or g < 0:
+                fails.append((f"C20_{name}_def", f"{name} axis={ax} at {idx}: {g!r}, definition gives {float(e[idx])!r}")); break
+    else:
+        num, den = np.asarray(red(yt * yp), dtype=object), np.asarray(red(yt ** 2) * red(yp ** 2), dtype=object)
+        if num.shape != v.shape:
+            return [(f"C20_{name}_def", f"{name} axis={ax}: shape {v.shape}, definition gives {num.shape}")]
+        for idx in np.ndindex(*num.shape) if num.shape else [()]:
+            g, n_, d_ = float(v[idx]), float(num[idx]), float(den[idx])
+            if abs(g) > 1 + 1e-9 or (d_ > 0 and abs(g - n_ / math.sqrt(d_)) > 1e-9):
+                fails.append((f"C20_{name}_def", f"{name} axis={ax} at {idx}: {g!r}, definition gives {n_ / math.sqrt(d_) if d_ > 0 else None!r}")); break
+    return fails
+
+
 def is_pow2(n):
     return n >= 1 and (n & (n - 1)) == 0
 
@@ -839,6 +902,12 @@ def emit_reg(cid, call, out):
     which = REG.index(call["fn"])
     ax = call["axis"]
     yt, yp = call["yt"], call["yp"]
+    if isinstance(ax, tuple):
+        axs = tuple_axes_norm(ax, yt.ndim)
+        cnt = int(np.prod([yt.shape[a] for a in axs])) if axs is not None else 0
+        zs = "[" + "; ".join(C.z(int(a)) for a in ax) + "]" if ax else "(@nil Z)"
+        impl = f"(Ok {tensor_lit(np.asarray(v))})" if st == "ok" else "Err"
+        return (f"({cid}%nat, KRegT {which}%nat {zs} {tensor_lit(yt)} {tensor_lit(yp)} {C.boolc(which == 0 and is_pow2(cnt))} {impl})")
     redlen = yt.size if ax is None else (yt.shape[ax] if -yt.ndim <= ax < yt.ndim else 1)
     exact = which in (0, 3, 4) and is_pow2(redlen)
     impl = f"(Ok {tensor_lit(np.asarray(v))})" if st == "ok" else "Err"
@@ -868,6 +937,25 @@ def gen_reg(tier, rng):
                     if name == "R2_score" and not np.any(yt):
                         yt.flat[0] = 1.0
                     calls.append(dict(fn=name, yt=yt, yp=yp, axis=ax, stream=name))
+    # axis given as a TUPLE: accepted by MSE / RMSE / reflective correlation for distinct legal axes (any order, negative
+    # entries, the empty tuple), rejected otherwise; the covariance family rejects every tuple
+    tshapes = [(3,), (2, 3), (2, 2), (2, 3, 2)] + ([(4,), (3, 2), (2, 2, 4), (2, 2, 2, 2), (3, 2, 2, 2)] if tier == "thorough" else [])
+    for sh in tshapes:
+        nd = len(sh)
+        tups = [(), (0,), (-1,), tuple(range(nd)), tuple(range(nd - 1, -1, -1)), (0, 0), (0, -nd), (nd,), (0, -nd - 1)]
+        if nd >= 2:
+            tups += [(0, -1), (-1, -2), (1, -1)]
+        if nd >= 3:
+            tups += [(0, 2), (2, 0), (-2, 0), (1, 2)]
+        if nd >= 4:
+            tups += [(3, 1), (0, 1, 3), (-1, 0, -2)]
+        for name in REG:
+            if name == "R2_score":
+                continue
+            for tp in dict.fromkeys(tups):
+                yt = np.array([rng.randint(-32, 32) / 8 for _ in range(int(np.prod(sh)))], dtype=np.float64).reshape(sh)
+                yp = np.array([rng.randint(-32, 32) / 8 for _ in range(int(np.prod(sh)))], dtype=np.float64).reshape(sh)
+                calls.append(dict(fn=name, yt=yt, yp=yp, axis=tp, stream=name + "-tuple"))
     return calls
 
 
@@ -1106,6 +1194,483 @@ def prove_source_tie(forms):
     return res
 
 
+# ----------------------------------------------------------------------------- source tie (factors / similarity / leverage)
+# A small symbolic executor per function: every statement of the CURRENT source must match one of the known statement forms
+# (structural ast patterns with holes); what the statements decide is collected into a closed Gallina record of
+# Model/MetricsSrc.v.  Anything else raises Untranslatable -> the tie is reported BROKEN (fail closed).
+class Untranslatable(Exception):
+    pass
+
+
+def _strip(node):
+    """ast.dump without positions / contexts"""
+    return ast.dump(node, annotate_fields=True, include_attributes=False).replace("ctx=Load()", "").replace("ctx=Store()", "")
+
+
+def pmatch(node, pat, env):
+    """structural match of `node` against pattern ast `pat`; Names starting with '_' are holes (bound consistently)"""
+    if isinstance(pat, ast.Name) and pat.id.startswith("_"):
+        if pat.id in env:
+            return _strip(env[pat.id]) == _strip(node)
+        env[pat.id] = node
+        return True
+    if isinstance(pat, ast.Name) and pat.id in ("T", "tl"):       # the backend alias
+        return isinstance(node, ast.Name) and node.id in ("T", "tl")
+    if type(node) is not type(pat):
+        return False
+    for f in pat._fields:
+        if f in ("ctx", "type_comment", "kind"):
+            continue
+        a, b = getattr(node, f, None), getattr(pat, f, None)
+        if isinstance(b, list):
+            if not isinstance(a, list) or len(a) != len(b) or not all(pmatch(x, y, env) for x, y in zip(a, b)):
+                return False
+        elif isinstance(b, ast.AST):
+            if not isinstance(a, ast.AST) or not pmatch(a, b, env):
+                return False
+        elif a != b:
+            return False
+    return True
+
+
+def m_stmt(node, src):
+    """match a statement against pattern source; -> hole dict or None.  `raise ...` in the pattern matches any raise"""
+    pat = ast.parse(src).body[0]
+    env = {}
+
+    def fix(n, p):       # any `raise X(...)` is as good as another
+        if isinstance(p, ast.If) and len(p.body) == 1 and isinstance(p.body[0], ast.Raise):
+            if not (isinstance(n, ast.If) and len(n.body) == 1 and isinstance(n.body[0], ast.Raise) and not n.orelse):
+                return None
+            return pmatch(n.test, p.test, env)
+        return pmatch(n, p, env)
+    return env if fix(node, pat) else None
+
+
+def m_expr(node, src):
+    env = {}
+    return env if pmatch(node, ast.parse(src, mode="eval").body, env) else None
+
+
+def _name(n):
+    if isinstance(n, ast.Name):
+        return n.id
+    raise Untranslatable("expected a variable, got " + ast.unparse(n)[:50])
+
+
+def _body(fn):
+    return [s for s in fn.body if not (isinstance(s, ast.Expr) and isinstance(s.value, ast.Constant))]
+
+
+def _funcs(path):
+    return {n.name: n for n in ast.parse(open(path).read()).body if isinstance(n, ast.FunctionDef)}
+
+
+def src_factors(repo):
+    fn = _funcs(os.path.join(repo, "tensorly", "metrics", "factors.py")).get("congruence_coefficient")
+    if fn is None:
+        raise Untranslatable("congruence_coefficient not found")
+    ps = [a.arg for a in fn.args.args]
+    if len(ps) != 3:
+        raise Untranslatable("parameters " + str(ps))
+    p1, p2, pabs = ps
+    side = {p1: 1, p2: 2}
+    sw = dict(len=False, cols=False, rows=False, z1=False, z2=False, L=None, R=None, abs="AbsNever")
+    st = dict(list=None, cols=None, loop=False, acc=None, prod=False, row=None, col=None, perm=None, idx=None, ret=False)
+    for s in _body(fn):
+        e = m_stmt(s, "if T.is_tensor(_X):\n    _X = [_X]")
+        if e and _name(e["_X"]) in side and not st["loop"]:
+            continue
+        e = m_stmt(s, "if len(_A) != len(_B):\n    raise ValueError()")
+        if e and {_name(e["_A"]), _name(e["_B"])} == {p1, p2} and not st["loop"]:
+            sw["len"] = True; continue
+        e = m_stmt(s, "_L = []")
+        if e and st["list"] is None:
+            st["list"] = _name(e["_L"]); continue
+        e = m_stmt(s, "_C = [T.shape(_m)[1] for _m in _A] + [T.shape(_n)[1] for _n in _B]")
+        if e and {_name(e["_A"]), _name(e["_B"])} == {p1, p2}:
+            st["cols"] = _name(e["_C"]); continue
+        e = m_stmt(s, "if len(np.unique(_C)) > 1:\n    raise ValueError()")
+        if e and st["cols"] is not None and _name(e["_C"]) == st["cols"] and not st["loop"]:
+            sw["cols"] = True; continue
+        if isinstance(s, ast.For) and not st["loop"] and not s.orelse:
+            e = {}
+            if not pmatch(s.target, ast.parse("(_a, _b)", mode="eval").body, e) or not pmatch(s.iter, ast.parse("zip(_A, _B)", mode="eval").body, e):
+                raise Untranslatable("loop header " + ast.unparse(s.target))
+            if (_name(e["_A"]), _name(e["_B"])) != (p1, p2) or st["list"] is None:
+                raise Untranslatable("loop over " + ast.unparse(s.iter))
+            _factors_loop(s.body, _name(e["_a"]), _name(e["_b"]), st["list"], pabs, sw)
+            st["loop"] = True; continue
+        e = m_stmt(s, "_acc = 1")
+        if e and st["loop"] and st["acc"] is None:
+            st["acc"] = _name(e["_acc"]); continue
+        if isinstance(s, ast.For) and st["loop"] and st["acc"] is not None and not st["prod"] and len(s.body) == 1:
+            e1 = m_stmt(s.body[0], "_acc *= _c") or m_stmt(s.body[0], "_acc = _acc * _c")
+            if (e1 and _name(e1["_acc"]) == st["acc"] and _name(e1["_c"]) == _name(s.target) and _name(s.iter) == st["list"]):
+                st["prod"] = True; continue
+        e = m_stmt(s, "_r, _c = linear_sum_assignment(-_acc)") or m_stmt(s, "_r, _c = linear_sum_assignment(_acc, maximize=True)")
+        if e and st["prod"] and _name(e["_acc"]) == st["acc"]:
+            st["row"], st["col"] = _name(e["_r"]), _name(e["_c"]); continue
+        e = m_stmt(s, "_d = dict(zip(_r, _c))")
+        if e and st["row"] and (_name(e["_r"]), _name(e["_c"])) == (st["row"], st["col"]):
+            st["idx"] = _name(e["_d"]); continue
+        e = m_stmt(s, "_p = [_d[_i] for _i in range(T.shape(_A[0])[1])]")
+        if e and st["idx"] and _name(e["_d"]) == st["idx"] and _name(e["_A"]) in side:
+            st["perm"] = _name(e["_p"]); continue
+        e = m_stmt(s, "return _acc[_r, _c].mean(), _p")
+        if (e and st["perm"] and _name(e["_p"]) == st["perm"] and _name(e["_acc"]) == st["acc"]
+                and (_name(e["_r"]), _name(e["_c"])) == (st["row"], st["col"])):
+            st["ret"] = True; continue
+        raise Untranslatable("statement: " + ast.unparse(s).split("\n")[0][:70])
+    if not (st["loop"] and st["prod"] and st["ret"] and sw["L"] and sw["R"]):
+        raise Untranslatable("incomplete: loop / product / assignment / return not all found")
+    bl = lambda b: "true" if b else "false"
+    return f"(mkCS {bl(sw['len'])} {bl(sw['cols'])} {bl(sw['rows'])} {bl(sw['z1'])} {bl(sw['z2'])} {sw['L']} {sw['R']} {sw['abs']})"
+
+
+def _factors_loop(body, a, b, lst, pabs, sw):
+    env = {a: ("raw", 1), b: ("raw", 2)}
+    appended = 0
+
+    def pm(v):
+        return f"(PRaw W{v[1]})" if v[0] == "raw" else f"(PNormed W{v[1]} W{v[2]})"
+    for s in body:
+        e = m_stmt(s, "if T.shape(_x)[0] != T.shape(_y)[0]:\n    raise ValueError()")
+        if e and {env.get(_name(e["_x"]), (0, 0))[1], env.get(_name(e["_y"]), (0, 0))[1]} == {1, 2}:
+            sw["rows"] = True; continue
+        e = m_stmt(s, "if T.prod(T.norm(_x, axis=0)) == 0 or T.prod(T.norm(_y, axis=0)) == 0:\n    raise ValueError()")
+        e1 = None if e else m_stmt(s, "if T.prod(T.norm(_x, axis=0)) == 0:\n    raise ValueError()")
+        if e or e1:
+            for h in (e or e1).values():
+                v = env.get(_name(h))
+                if v is None or v[0] != "raw":
+                    raise Untranslatable("zero-norm test on a non-raw matrix")
+                sw["z%d" % v[1]] = True
+            continue
+        e = m_stmt(s, "_x = _x / T.norm(_y, axis=0)")
+        if e:
+            vx, vy = env.get(_name(e["_x"])), env.get(_name(e["_y"]))
+            if vx is None or vy is None or vx[0] != "raw" or vy[0] != "raw":
+                raise Untranslatable("normalisation of / by an already normalised matrix")
+            env[_name(e["_x"])] = ("normed", vx[1], vy[1]); continue
+        e = m_stmt(s, "_L.append(T.dot(T.transpose(_x), _y))")
+        if e and _name(e["_L"]) == lst and appended == 0:
+            vx, vy = env.get(_name(e["_x"])), env.get(_name(e["_y"]))
+            if vx is None or vy is None:
+                raise Untranslatable("dot of unknown operands")
+            sw["L"], sw["R"] = pm(vx), pm(vy); appended = 1; continue
+        e = m_stmt(s, "if _f:\n    _L[-1] = T.abs(_L[-1])")
+        if e and appended and _name(e["_L"]) == lst and _name(e["_f"]) == pabs and not s.orelse:
+            sw["abs"] = "AbsIf"; continue
+        e = m_stmt(s, "_L[-1] = T.abs(_L[-1])")
+        if e and appended and _name(e["_L"]) == lst:
+            sw["abs"] = "AbsAlways"; continue
+        e = m_stmt(s, "_L[-1] = T.to_numpy(_L[-1])")
+        if e and appended and _name(e["_L"]) == lst:
+            continue
+        raise Untranslatable("loop statement: " + ast.unparse(s).split("\n")[0][:70])
+    if not appended:
+        raise Untranslatable("no congruence matrix appended in the loop")
+
+
+METH_CTOR = {"stacked": "Stacked", "max_score": "MaxScore", "min_score": "MinScore", "avg_score": "AvgScore"}
+
+
+def src_similarity(repo):
+    fs = _funcs(os.path.join(repo, "tensorly", "metrics", "similarity.py"))
+    fn, cf = fs.get("correlation_index"), fs.get("_compute_correlation_index")
+    if fn is None or cf is None:
+        raise Untranslatable("correlation_index / _compute_correlation_index not found")
+    ps = [a.arg for a in fn.args.args]
+    if len(ps) != 4:
+        raise Untranslatable("parameters " + str(ps))
+    f1, f2, ptol, pmeth = ps
+    sw = dict(rank=False, methods=None, stack=None, shapes=False, z1=False, z2=False, n1=False, n2=False, red=None)
+    X = {}          # variable -> [side, normalised?]
+    norms = {}      # variable -> side
+    opts = {}       # variable -> list of names
+    idxs = None
+    done = False
+    for s in _body(fn):
+        if done:
+            raise Untranslatable("statement after return")
+        if isinstance(s, ast.For) and len(s.body) == 1 and not s.orelse:
+            e = {}
+            inner = m_stmt(s.body[0], "if len({tl.shape(_A)[1] for _A in _fs}) != 1:\n    raise ValueError()")
+            if inner and pmatch(s.iter, ast.parse("[_p, _q]", mode="eval").body, e) and _name(inner["_fs"]) == _name(s.target) \
+                    and {_name(e["_p"]), _name(e["_q"])} == {f1, f2}:
+                sw["rank"] = True; continue
+            e = {}
+            if pmatch(s.target, ast.parse("(_a, _b)", mode="eval").body, e) and pmatch(s.iter, ast.parse("zip(_A, _B)", mode="eval").body, e):
+                A, B = _name(e["_A"]), _name(e["_B"])
+                inner = m_stmt(s.body[0], "if tl.shape(_a) != tl.shape(_b):\n    raise ValueError()")
+                if inner and A in X and B in X and {X[A][0], X[B][0]} == {1, 2} and \
+                        {_name(inner["_a"]), _name(inner["_b"])} == {_name(e["_a"]), _name(e["_b"])}:
+                    sw["shapes"] = True; continue
+                inner = m_stmt(s.body[0], "if tl.any(_a == 0) or tl.any(_b == 0):\n    raise ValueError()")
+                inner1 = None if inner else m_stmt(s.body[0], "if tl.any(_a == 0):\n    raise ValueError()")
+                if (inner or inner1) and A in norms and B in norms:
+                    lv = {_name(e["_a"]): norms[A], _name(e["_b"]): norms[B]}
+                    for h in (inner or inner1).values():
+                        sw["z%d" % lv[_name(h)]] = True
+                    continue
+            raise Untranslatable("loop: " + ast.unparse(s).split("\n")[0][:70])
+        e = m_stmt(s, "_o = _list")
+        if e and isinstance(e["_list"], ast.List) and all(isinstance(x, ast.Constant) and isinstance(x.value, str) for x in e["_list"].elts):
+            opts[_name(e["_o"])] = [x.value for x in e["_list"].elts]; continue
+        e = m_stmt(s, "if _m not in _o:\n    raise ValueError()")
+        if e and _name(e["_m"]) == pmeth and _name(e["_o"]) in opts:
+            names = opts[_name(e["_o"])]
+            if any(n not in METH_CTOR for n in names):
+                raise Untranslatable("unknown method name in options: " + str(names))
+            sw["methods"] = names; continue
+        if isinstance(s, ast.If) and m_expr(s.test, "_m == 'stacked'") and len(s.body) == 2 and len(s.orelse) == 2 and idxs is None:
+            ok = True
+            for k, (sb, so) in enumerate(zip(s.body, s.orelse)):
+                eb = m_stmt(sb, "_X = [tl.concatenate(_f, 0)]"); eo = m_stmt(so, "_X = _f")
+                if not (eb and eo and _name(eb["_X"]) == _name(eo["_X"]) and _name(eb["_f"]) == _name(eo["_f"]) and _name(eb["_f"]) in (f1, f2)):
+                    ok = False; break
+                X[_name(eb["_X"])] = [1 if _name(eb["_f"]) == f1 else 2, False]
+            if ok and sorted(v[0] for v in X.values()) == [1, 2]:
+                sw["stack"] = True; continue
+            raise Untranslatable("stacking block")
+        e = m_stmt(s, "_n = [tl.norm(_x, axis=0) for _x in _X]")
+        if e and _name(e["_X"]) in X and not X[_name(e["_X"])][1]:
+            norms[_name(e["_n"])] = X[_name(e["_X"])][0]; continue
+        e = m_stmt(s, "_X = [_x / _c for _x, _c in zip(_X, _n)]")
+        if e and _name(e["_X"]) in X and not X[_name(e["_X"])][1] and norms.get(_name(e["_n"])) == X[_name(e["_X"])][0]:
+            X[_name(e["_X"])][1] = True; continue
+        e = m_stmt(s, "_I = [_compute_correlation_index(_a, _b, tol=_t) for _a, _b in zip(_A, _B)]")
+        if e and _name(e["_t"]) == ptol and _name(e["_A"]) in X and _name(e["_B"]) in X and X[_name(e["_A"])][0] == 1 and X[_name(e["_B"])][0] == 2:
+            sw["n1"], sw["n2"] = X[_name(e["_A"])][1], X[_name(e["_B"])][1]
+            idxs = _name(e["_I"]); continue
+        if isinstance(s, ast.If) and idxs is not None and sw["red"] is None:
+            red, node, score = {}, s, None
+            while True:
+                e = m_expr(node.test, "_m == _c")
+                if not (e and _name(e["_m"]) == pmeth and isinstance(e["_c"], ast.Constant) and e["_c"].value in METH_CTOR and len(node.body) == 1):
+                    raise Untranslatable("reduction chain test " + ast.unparse(node.test))
+                r = None
+                for pat, rr in (("_s = _I[0]", "RdFirst"), ("_s = tl.max(_I)", "RdMax"), ("_s = tl.min(_I)", "RdMin"), ("_s = tl.mean(_I)", "RdMean")):
+                    e2 = m_stmt(node.body[0], pat)
+                    if e2 and _name(e2["_I"]) == idxs:
+                        r = rr; score = score or _name(e2["_s"])
+                        if _name(e2["_s"]) != score:
+                            raise Untranslatable("reduction target")
+                if r is None:
+                    raise Untranslatable("reduction " + ast.unparse(node.body[0]))
+                red[e["_c"].value] = r
+                if len(node.orelse) == 1 and isinstance(node.orelse[0], ast.If):
+                    node = node.orelse[0]; continue
+                if node.orelse:
+                    e3 = m_stmt(node.orelse[0], "_s = 1.0") if len(node.orelse) == 1 else None
+                    if not (e3 and _name(e3["_s"]) == score):
+                        raise Untranslatable("trailing else of the reduction chain")
+                break
+            sw["red"] = (red, score); continue
+        e = m_stmt(s, "return _s")
+        if e and sw["red"] and _name(e["_s"]) == sw["red"][1]:
+            done = True; continue
+        raise Untranslatable("statement: " + ast.unparse(s).split("\n")[0][:70])
+    if not (done and sw["stack"] and sw["methods"] is not None and idxs):
+        raise Untranslatable("incomplete: options / stacking / indices / return not all found")
+    # _compute_correlation_index
+    cps = [a.arg for a in cf.args.args]
+    if len(cps) != 3:
+        raise Untranslatable("_compute_correlation_index parameters")
+    x1, x2, ctol = cps
+    cvar = nvar = svar = None; cabs = None; nexp = None; cexp = None; cmp_ = None; cdone = False
+    for s in _body(cf):
+        e = m_stmt(s, "_c = tl.abs(tl.matmul(tl.conj(tl.transpose(_a)), _b))") or m_stmt(s, "_c = tl.abs(tl.dot(tl.transpose(_a), _b))")
+        e_ = None if e else (m_stmt(s, "_c = tl.matmul(tl.conj(tl.transpose(_a)), _b)") or m_stmt(s, "_c = tl.dot(tl.transpose(_a), _b)"))
+        if (e or e_) and cvar is None:
+            ee = e or e_
+            if (_name(ee["_a"]), _name(ee["_b"])) != (x1, x2):
+                raise Untranslatable("cross product operands")
+            cvar, cabs = _name(ee["_c"]), bool(e); continue
+        if isinstance(s, ast.Assign) and len(s.targets) == 1 and isinstance(s.targets[0], ast.Name) and cvar and svar is None:
+            try:
+                nexp_try = _nexp(s.value, cvar)
+                nvar, nexp = s.targets[0].id, nexp_try; continue
+            except Untranslatable:
+                pass
+            cexp = _cexp(s.value, cvar, nvar, nexp); svar = s.targets[0].id; continue
+        if isinstance(s, ast.If) and svar and cmp_ is None and not s.orelse and len(s.body) == 1:
+            e = m_stmt(s.body[0], "_s = 0")
+            t = s.test
+            if e and _name(e["_s"]) == svar and isinstance(t, ast.Compare) and len(t.ops) == 1 and isinstance(t.left, ast.Name) and t.left.id == svar \
+                    and isinstance(t.comparators[0], ast.Name) and t.comparators[0].id == ctol and isinstance(t.ops[0], (ast.Lt, ast.LtE)):
+                cmp_ = "CLt" if isinstance(t.ops[0], ast.Lt) else "CLe"; continue
+        e = m_stmt(s, "return _s")
+        if e and svar and _name(e["_s"]) == svar and cmp_:
+            cdone = True; continue
+        raise Untranslatable("_compute_correlation_index: " + ast.unparse(s).split("\n")[0][:70])
+    if not (cdone and cexp):
+        raise Untranslatable("_compute_correlation_index incomplete")
+    bl = lambda b: "true" if b else "false"
+    red = sw["red"][0]
+    redf = "(fun m => match m with " + " | ".join(f"{METH_CTOR[n]} => {('Some ' + red[n]) if n in red else 'None'}" for n in METH_CTOR) + " end)"
+    meths = "[" + "; ".join(METH_CTOR[n] for n in sw["methods"]) + "]"
+    return (f"(mkCI {bl(sw['rank'])} {meths} {bl(sw['stack'])} {bl(sw['shapes'])} {bl(sw['z1'])} {bl(sw['z2'])} {bl(sw['n1'])} {bl(sw['n2'])} "
+            f"{redf} {bl(cabs)} {cexp} {cmp_})")
+
+
+def _nexp(n, cvar):
+    e = m_expr(n, "tl.shape(_c)[_k]")
+    if e and _name(e["_c"]) == cvar and isinstance(e["_k"], ast.Constant) and e["_k"].value in (0, 1):
+        return "NRows" if e["_k"].value == 0 else "NCols"
+    if isinstance(n, ast.BinOp) and isinstance(n.op, ast.Add):
+        return f"(NAdd {_nexp(n.left, cvar)} {_nexp(n.right, cvar)})"
+    if isinstance(n, ast.BinOp) and isinstance(n.op, ast.Mult) and isinstance(n.left, ast.Constant) and n.left.value == 2:
+        return f"(NTwice {_nexp(n.right, cvar)})"
+    raise Untranslatable("size expression " + ast.unparse(n)[:50])
+
+
+def _vexp(n, cvar):
+    e = m_expr(n, "tl.max(_c, _k)")
+    if e and _name(e["_c"]) == cvar and isinstance(e["_k"], ast.Constant) and e["_k"].value in (0, 1):
+        return f"(VMax {e['_k'].value}%nat)"
+    e = m_expr(n, "tl.abs(_v)")
+    if e:
+        return f"(VAbs {_vexp(e['_v'], cvar)})"
+    if isinstance(n, ast.BinOp) and isinstance(n.op, ast.Sub):
+        if isinstance(n.right, ast.Constant) and n.right.value == 1:
+            return f"(VSubOne {_vexp(n.left, cvar)})"
+        if isinstance(n.left, ast.Constant) and n.left.value == 1:
+            return f"(VOneSub {_vexp(n.right, cvar)})"
+    raise Untranslatable("vector expression " + ast.unparse(n)[:50])
+
+
+def _cexp(n, cvar, nvar, nexp):
+    if isinstance(n, ast.Constant) and n.value == 1:
+        return "COne"
+    if isinstance(n, ast.Name) and n.id == nvar and nexp:
+        return f"(CNat {nexp})"
+    e = m_expr(n, "tl.sum(_v)")
+    if e:
+        return f"(CSum {_vexp(e['_v'], cvar)})"
+    if isinstance(n, ast.BinOp) and type(n.op) in (ast.Add, ast.Mult, ast.Div):
+        c = {ast.Add: "CAdd", ast.Mult: "CMul", ast.Div: "CDiv"}[type(n.op)]
+        return f"({c} {_cexp(n.left, cvar, nvar, nexp)} {_cexp(n.right, cvar, nvar, nexp)})"
+    try:
+        return f"(CNat {_nexp(n, cvar)})"
+    except Untranslatable:
+        raise Untranslatable("score expression " + ast.unparse(n)[:50])
+
+
+def src_leverage(repo):
+    fn = _funcs(os.path.join(repo, "tensorly", "metrics", "leverage_scores.py")).get("leverage_score_dist")
+    if fn is None or len(fn.args.args) != 1:
+        raise Untranslatable("leverage_score_dist(matrix) not found")
+    M = fn.args.args[0].arg
+    U = S = dt = cut = k = lev = None; cutl = None; cmp_ = None; renorm = False; done = False
+    for s in _body(fn):
+        e = m_stmt(s, "_U, _S, _ = tl.svd(_M, full_matrices=False)")
+        if e and U is None and _name(e["_M"]) == M:
+            U, S = _name(e["_U"]), _name(e["_S"]); continue
+        e = m_stmt(s, "_d = tl.context(_M)['dtype']")
+        if e and _name(e["_M"]) == M and lev is None:
+            dt = _name(e["_d"]); continue
+        if isinstance(s, ast.Assign) and len(s.targets) == 1 and isinstance(s.targets[0], ast.Name) and U and cut is None:
+            fl = []
+
+            def flat(n):
+                if isinstance(n, ast.BinOp) and isinstance(n.op, ast.Mult):
+                    flat(n.left)
+                    if isinstance(n.right, ast.BinOp):
+                        raise Untranslatable("cut-off product is not left-associated")
+                    fl.append(n.right)
+                else:
+                    fl.append(n)
+            flat(s.value)
+            out = []
+            for f in fl:
+                if (lambda e: e and _name(e["_S"]) == S)(m_expr(f, "tl.max(_S)")):
+                    out.append("FMaxS")
+                elif (lambda e: e and _name(e["_M"]) == M)(m_expr(f, "max(_M.shape)")):
+                    out.append("FMaxShape")
+                elif (lambda e: e and _name(e["_M"]) == M)(m_expr(f, "min(_M.shape)")):
+                    out.append("FMinShape")
+                elif (lambda e: e and dt and _name(e["_d"]) == dt)(m_expr(f, "tl.eps(_d)")):
+                    out.append("FEps")
+                else:
+                    raise Untranslatable("cut-off factor " + ast.unparse(f)[:50])
+            cut, cutl = s.targets[0].id, out; continue
+        e = m_stmt(s, "_k = int(tl.max(tl.where(_S > _c)[0])) + 1") or m_stmt(s, "_k = int(tl.max(tl.where(_S >= _c)[0])) + 1")
+        if e and cut and _name(e["_S"]) == S and _name(e["_c"]) == cut and k is None:
+            cmpnode = s.value.left.args[0].args[0].value.args[0]
+            cmp_ = "CLt" if isinstance(cmpnode.ops[0], ast.Gt) else "CLe"
+            k = _name(e["_k"]); continue
+        e = m_stmt(s, "_l = tl.sum(_U[:, :_k] ** 2, axis=1) / tl.tensor(_k, dtype=_d)")
+        if e and k and _name(e["_U"]) == U and _name(e["_k"]) == k and lev is None:
+            lev = _name(e["_l"]); continue
+        if isinstance(s, ast.If) and lev and not s.orelse and m_expr(s.test, "tl.context(_l)['dtype'] != tl.float64"):
+            if len(s.body) == 2:
+                e1 = m_stmt(s.body[0], "_l = tl.tensor(_l, dtype=tl.float64)")
+                e2 = m_stmt(s.body[1], "_l /= tl.sum(_l)") or m_stmt(s.body[1], "_l = _l / tl.sum(_l)")
+                if e1 and e2 and _name(e1["_l"]) == lev and _name(e2["_l"]) == lev:
+                    renorm = True; continue
+            if len(s.body) == 1:
+                e1 = m_stmt(s.body[0], "_l = tl.tensor(_l, dtype=tl.float64)")
+                if e1 and _name(e1["_l"]) == lev:
+                    continue
+            raise Untranslatable("dtype branch")
+        e = m_stmt(s, "return _l")
+        if e and lev and _name(e["_l"]) == lev:
+            done = True; continue
+        raise Untranslatable("statement: " + ast.unparse(s).split("\n")[0][:70])
+    if not (done and cutl and cmp_):
+        raise Untranslatable("incomplete")
+    return f"(mkLV [{'; '.join(cutl)}] {cmp_} {'true' if renorm else 'false'})"
+
+
+SRC_TIES = {          # name -> (extractor, record type, canonical term, streams whose cases carry the sampled comparison)
+    "factors.congruence_coefficient": (src_factors, "cong_src", "canonical_cs", ("congruence_coefficient", "congruence_certified", "cp_permute_factors")),
+    "similarity.correlation_index": (src_similarity, "ci_src", "canonical_ci", ("correlation_index",)),
+    "leverage_scores.leverage_score_dist": (src_leverage, "lev_src", "canonical_lv", ("leverage_score_dist",)),
+}
+
+
+def source_tie_records(chk):
+    """-> {name: (status, term)}; status: 'canonical' (the proved lemmas of Proofs/MetricsSrcTie.v cover all inputs),
+    'differs' (interpreted and compared with the model on every case), 'broken' (fail closed)"""
+    import subprocess, shutil
+    d = os.path.join(C.BUILD, "cases", "C20", f"srctie_{os.getpid()}")
+    shutil.rmtree(d, ignore_errors=True); os.makedirs(d, exist_ok=True)
+    out, procs = {}, []
+    for name, (fn, ty, canon, _) in SRC_TIES.items():
+        try:
+            term = fn(C.REPO)
+        except Untranslatable as ex:
+            out[name] = ("broken", str(ex)); continue
+        except Exception as ex:          # a bug of the executor must not pass silently either
+            out[name] = ("broken", f"{type(ex).__name__}: {ex}"); continue
+        vf = os.path.join(d, "Tie_" + ty + ".v")
+        with open(vf, "w") as f:
+            f.write("From Coq Require Import List. Import ListNotations.\nFrom TLV Require Import Model.Metrics Model.MetricsSrc Proofs.MetricsSrcTie.\n"
+                    f"Definition extracted : {ty} := {term}.\nLemma tie : extracted = {canon}.\nProof. reflexivity. Qed.\n")
+        procs.append((name, term, vf, subprocess.Popen(["timeout", "120", "coqc", "-w", "none", "-R", os.path.join(C.COQ, "theories"), "TLV", vf],
+                                                        stdout=subprocess.PIPE, stderr=subprocess.PIPE, text=True, cwd=d)))
+    for name, term, vf, pr in procs:
+        o, e = pr.communicate()
+        if pr.returncode == 0:
+            out[name] = ("canonical", term)
+        else:
+            # is the term at least well-typed?  (otherwise the executor produced garbage: broken)
+            with open(vf, "w") as f:
+                ty = SRC_TIES[name][1]
+                f.write("From Coq Require Import List. Import ListNotations.\nFrom TLV Require Import Model.Metrics Model.MetricsSrc.\n"
+                        f"Definition extracted : {ty} := {term}.\n")
+            r = subprocess.run(["timeout", "120", "coqc", "-w", "none", "-R", os.path.join(C.COQ, "theories"), "TLV", vf], capture_output=True, text=True, cwd=d)
+            out[name] = ("differs", term) if r.returncode == 0 else ("broken", "ill-typed record: " + term[:120])
+    shutil.rmtree(d, ignore_errors=True)
+    for name, (stt, val) in out.items():
+        if stt == "broken":
+            chk.broken.append({"what": f"source tie {name} broken: the symbolic executor does not cover the current source ({val})",
+                               "detail": val})
+    return out
+
+
 # ----------------------------------------------------------------------------- driver
 STREAMS = {
     "congruence_coefficient": ("tensorly.metrics.factors.congruence_coefficient", gen_congruence, call_congruence, pred_congruence, emit_congruence),
@@ -1132,7 +1697,7 @@ def nontrivial(sname, call):
         return call["yt"].size > 1
     if sname == "leverage_score_dist":
         return call["M"].size > 1
-    return call["As"][0].shape[1] >= 2
+    return len(call["As"]) > 0 and call["As"][0].shape[1] >= 2
 
 
 def entry_point(sname, call):
@@ -1197,6 +1762,16 @@ def run(chk):
     SRC_EVERY = 1 if tier == "quick" else 3
     SRC_FORMS.clear(); SRC_FORMS.update(translate_all(C.REPO, REG))
     chk.cov["source_tie_regression"] = prove_source_tie(SRC_FORMS)
+    ties = source_tie_records(chk)
+    chk.cov["source_tie_modules"] = {n: (st if st != "broken" else "BROKEN: " + str(v)[:200]) for n, (st, v) in ties.items()}
+    differs = {n: v for n, (st, v) in ties.items() if st == "differs"}
+    wrap_streams = {sn for n in differs for sn in SRC_TIES[n][3]}
+
+    def wrap_src(lit):      # the extracted record differs from the canonical one: its interpretation is compared with the model on the case
+        head, body = lit[1:-1].split(", ", 1)
+        opt = lambda n: f"(Some {differs[n]})" if n in differs else "None"
+        return (f"({head}, KSrc {opt('factors.congruence_coefficient')} {opt('similarity.correlation_index')} "
+                f"{opt('leverage_scores.leverage_score_dist')} ({body}))")
     lap("source_tie")
     todo = load_corpus()
     only = [x for x in os.environ.get("VERIF_C20_ONLY", "").split(",") if x]      # development aid (mutation screening): a subset of streams
@@ -1213,7 +1788,7 @@ def run(chk):
         chk.hist("entry_point", sname if sname != "regression" else call["fn"])
         chk.hist("stream", call.get("stream", "?")); chk.hist("outcome", out[0])
         if sname != "regression" and sname != "leverage_score_dist":
-            chk.hist("rank", call["As"][0].shape[1]); chk.hist("modes", len(call["As"]))
+            chk.hist("rank", call["As"][0].shape[1] if len(call["As"]) else 0); chk.hist("modes", len(call["As"]))
         for predicate, msg in pred(call, out):
             chk.finding(entry_point(sname, call), {"stream": sname, "call": encode_call(call)}, msg, predicate,
                         observed=str(out[1])[:300])
@@ -1235,6 +1810,8 @@ def run(chk):
             chk.finding(entry_point(sname, call), {"stream": sname, "call": encode_call(call)},
                         f"non-finite output cannot be compared with the model: {e}", "C20_finite_output", observed=str(out[1])[:300])
             continue
+        if sname in wrap_streams:
+            lit = wrap_src(lit)
         cases.append(lit); meta.append((sname, call, out))
         if cid % 211 == 0:
             chk.sample({"entry_point": entry_point(sname, call), "stream": call.get("stream"), "outcome": out[0],
@@ -1273,7 +1850,9 @@ def run(chk):
                        "potentials and the duality gap on the matrix rounded to 2^-80 and accepts gap <= 1e-9 * rank (theorem: value within 1e-9 of the optimum)",
                        "sqrt in the executed model = floor(sqrt(x * 2^200)) / 2^100 (Z.sqrt); numpy's sqrt is compared with it at 1e-9",
                        "factor matrices have no exactly-zero column (the code rejects them) and at least one row and column"]
-    chk.trusted += ["ast translator regression.py -> Corr.C20.rexp (its output is compared with the hand-written model by conversion and on samples)"]
+    chk.trusted += ["ast translator regression.py -> Corr.C20.rexp (its output is compared with the hand-written model by conversion and on samples)",
+                    "symbolic executors factors.py / similarity.py / leverage_scores.py -> Model.MetricsSrc records (statement patterns; unknown statement = broken tie); "
+                    "the meaning of a record is Model/MetricsSrc.v, equal to the model for the canonical record by Proofs/MetricsSrcTie.v"]
     chk.trusted += ["oracles: numpy sqrt (column norms), scipy.optimize.linear_sum_assignment, numpy.linalg.svd -- answers checked per case "
                     "(norm^2 = sum of squares to 1e-11; matching value = brute-force optimum over all r! matchings to 1e-9; U^T U = I, U S V^T = M to 1e-9)"]
     return chk.finish({})
